@@ -169,7 +169,7 @@ TEXT = {
           "samples_spec, sign_at_rat = C10_sign_exact at rational points, sign_const = intermediate value theorem, C12_sweep); "
           "C12_feasible_exact_zero covers specialisations that vanish identically (identicallyZero_sound).",
   "design_ref": "5.12",
-  "note": "the C++ helper poly::infeasible_regions is not exercised (C harnesses only)",
+  "note": "the C++ helpers are reached through a C++ companion of the harness (h_eval_shim.cpp): poly::infeasible_regions must equal the one-pass complement of the feasible set returned for the same constraint (C12_complement_exact: that complement is exact for every sorted list of disjoint non-empty intervals), poly::isolate_real_roots goes through the same root validation as the C entry point",
   "technique": "Lean 4 proved root-constraint table and sign procedure (validator) + per-output validation of the C results",
  },
  "C10": {
